@@ -27,7 +27,8 @@ REQUIRED_COUNTERS = {"earlier_suspensions_observed_on_the_way": {"quick": 5000, 
                      "chains_deeper_than_100": {"quick": 6, "thorough": 6},
                      "chains_with_agen_payload": {"quick": 100, "thorough": 1000},
                      "obs_agen_links": {"quick": 300, "thorough": 3000},
-                     "exhausted_checked": {"quick": 300, "thorough": 3000}}
+                     "exhausted_checked": {"quick": 300, "thorough": 3000},
+                     "outermost_peeked_first": {"quick": 3000, "thorough": 30000}}
 SHARD_TIMEOUT = {"quick": 400, "thorough": 5400}
 INTERPS = ["3.12", "3.11", "3.10", "3.9"]
 EXHAUSTIVE = {"quick": False, "thorough": False}
@@ -74,6 +75,16 @@ def check_chain(spec, res, interp, chains, stackscope, state):
                     stackscope.extract(t.x)
                 res.count("earlier_suspensions_observed_on_the_way")
         res.evaluations += 1
+        if j % 3 == 1:
+            # a look at just the outermost frame first (abandons the traversal after one frame): whatever that
+            # leaves behind must not change what the full extraction sees
+            with warnings.catch_warnings():
+                warnings.simplefilter("ignore")
+                try:
+                    stackscope.extract_outermost(t.x, with_contexts=bool(j % 2))
+                except RuntimeError:
+                    pass
+            res.count("outermost_peeked_first")
         with warnings.catch_warnings(record=True) as w:
             warnings.simplefilter("always")
             s = stackscope.extract(t.x)
